@@ -1,0 +1,124 @@
+package system
+
+import (
+	"fmt"
+	"time"
+
+	"github.com/shopspring/decimal"
+)
+
+// timeUnit enumerates the calendar duration units, from coarse to fine.
+type timeUnit int
+
+const (
+	unitYear timeUnit = iota
+	unitMonth
+	unitWeek
+	unitDay
+	unitHour
+	unitMinute
+	unitSecond
+	unitMillisecond
+)
+
+// unitMillis is the length of each unit under the fixed conversion table used
+// for partial-precision arithmetic: 1 year = 365 days, 1 month = 30 days.
+var unitMillis = [...]int64{
+	unitYear:        365 * 24 * 3600 * 1000,
+	unitMonth:       30 * 24 * 3600 * 1000,
+	unitWeek:        7 * 24 * 3600 * 1000,
+	unitDay:         24 * 3600 * 1000,
+	unitHour:        3600 * 1000,
+	unitMinute:      60 * 1000,
+	unitSecond:      1000,
+	unitMillisecond: 1,
+}
+
+// maxCalendarAmount bounds the amount of a time-valued quantity; anything
+// beyond it leaves the range of FHIRPath dates whatever the unit.
+const maxCalendarAmount = 100_000_000
+
+// calendarUnit returns the calendar duration unit of the quantity.
+func (q Quantity) calendarUnit() (timeUnit, error) {
+	switch q.unit {
+	case "year", "years":
+		return unitYear, nil
+	case "month", "months":
+		return unitMonth, nil
+	case "week", "weeks":
+		return unitWeek, nil
+	case "day", "days":
+		return unitDay, nil
+	case "hour", "hours":
+		return unitHour, nil
+	case "minute", "minutes":
+		return unitMinute, nil
+	case "second", "seconds":
+		return unitSecond, nil
+	case "millisecond", "milliseconds":
+		return unitMillisecond, nil
+	}
+	return 0, fmt.Errorf("%w: not a time-valued unit", ErrMismatchedUnit)
+}
+
+// rank orders units for the comparison with a precision: a week is as fine as
+// a day (it is a whole number of days).
+func (u timeUnit) rank() int {
+	if u == unitWeek {
+		return int(unitDay)
+	}
+	return int(u)
+}
+
+// addQuantity returns t moved by sign*q, for a value whose finest component is
+// `precision` (unitMillisecond when it carries a seconds fraction).
+//
+// A unit that is not finer than the precision is added on the calendar (years
+// and months clamp to the end of the month). A finer unit is first converted
+// to whole units of the precision, truncating toward zero, with 1 year = 12
+// months = 365 days and 1 month = 30 days.
+func addQuantity(t time.Time, q Quantity, precision timeUnit, sign int) (time.Time, error) {
+	unit, err := q.calendarUnit()
+	if err != nil {
+		return time.Time{}, err
+	}
+	amount := decimal.Decimal(q.value).Truncate(0)
+	if unit == unitSecond && precision == unitMillisecond {
+		// Seconds may carry a fraction when the value does: work in milliseconds.
+		amount = decimal.Decimal(q.value).Shift(3).Truncate(0)
+		unit = unitMillisecond
+	}
+	if amount.Abs().GreaterThan(decimal.NewFromInt(maxCalendarAmount)) {
+		return time.Time{}, fmt.Errorf("%w: amount out of range", ErrMismatchedUnit)
+	}
+	n := amount.IntPart() * int64(sign)
+	if unit.rank() > precision.rank() {
+		if unit == unitMonth && precision == unitYear {
+			n /= 12
+		} else {
+			n = n * unitMillis[unit] / unitMillis[precision]
+		}
+		unit = precision
+	}
+	return shift(t, unit, n), nil
+}
+
+// shift moves t by n units on its own (fixed-offset) timeline.
+func shift(t time.Time, unit timeUnit, n int64) time.Time {
+	const dayMillis = 24 * 3600 * 1000
+	switch unit {
+	case unitYear:
+		return addYear(t, int(n))
+	case unitMonth:
+		return addMonth(t, int(n))
+	case unitWeek:
+		return t.AddDate(0, 0, int(7*n))
+	case unitDay:
+		return t.AddDate(0, 0, int(n))
+	}
+	// Sub-day units: whole days through the calendar (no Duration overflow), the
+	// rest as a duration.
+	millis := n * unitMillis[unit]
+	days, rest := millis/dayMillis, millis%dayMillis
+	return t.AddDate(0, 0, int(days)).Add(time.Duration(rest) * time.Millisecond)
+}
